@@ -255,6 +255,65 @@ func runC06Refs(w *caseWriter, id string, d c06Desc, st *c06Stats) {
 			st.kinds[strings.SplitN(r.kind, ":", 2)[0]]++
 		}
 	}
+	// the same reference, the same path, but the file is gone (or is a directory) by the time of THIS build, after
+	// builds in this process that read it successfully: nothing remembered from those may stand in for it
+	for ri, r := range collectRefs(cfg) {
+		if strings.ContainsAny(r.get, "*?[") || r.get == "" {
+			continue
+		}
+		doc2 := d.YAML
+		path := r.get
+		if filepath.IsAbs(path) {
+			// a key from the repository's test data: work on a copy inside the work directory
+			b, err := os.ReadFile(path)
+			if err != nil {
+				continue
+			}
+			path = filepath.Join("keys", fmt.Sprintf("%d-%s", ri, filepath.Base(path)))
+			must(os.MkdirAll("keys", 0o755))
+			must(os.WriteFile(path, b, 0o600))
+			c2, _ := parseDoc(d.YAML)
+			collectRefs(c2)[ri].set(c2, path)
+			doc2 = marshalConfig(c2)
+		}
+		if _, err := os.Lstat(path); err != nil {
+			continue
+		}
+		ok := map[string]bool{}
+		for _, f := range allFormats {
+			ok[f] = base[f] && packageInto(doc2, f, io.Discard, nil) == nil
+		}
+		moved := path + ".moved-away"
+		if err := os.Rename(path, moved); err != nil {
+			continue
+		}
+		isContent := strings.HasPrefix(r.kind, "content")
+		for _, variant := range []string{"gone", "directory"} {
+			if variant == "directory" {
+				if isContent {
+					break // a directory is a valid content source
+				}
+				must(os.Mkdir(path, 0o755))
+			}
+			for _, f := range allFormats {
+				if !ok[f] {
+					continue
+				}
+				err := packageInto(doc2, f, io.Discard, nil)
+				msg := ""
+				if err != nil {
+					msg = err.Error()
+				}
+				w.line("rref %s %s %s %d %s", xs(r.kind), xs(r.get+" ("+variant+" at build time)"), xs(f), b2i(err == nil), xs(msg))
+				st.refs++
+				st.kinds[strings.SplitN(r.kind, ":", 2)[0]+"-"+variant]++
+			}
+			if variant == "directory" {
+				os.Remove(path)
+			}
+		}
+		must(os.Rename(moved, path))
+	}
 	w.line("rend")
 	st.cases++
 }
